@@ -5,6 +5,9 @@ import (
 	"sort"
 	"strings"
 	"time"
+
+	"github.com/bokysan/socketace/v2/internal/server"
+	sdns "github.com/bokysan/socketace/v2/internal/streams/dns"
 )
 
 func init() { Scenarios["C14"] = scenarioC14 }
@@ -87,13 +90,17 @@ func scenarioC14(r *Run) {
 		n = 5
 	}
 	overlap := 1 + c.Pick(3, "overlap")
-	endMode := []string{"client-shutdown", "carrier-reset", "garbage-frame", "partition-keepalive", "none", "carrier-timeout"}[c.Pick(6, "end-mode")]
+	endMode := []string{"client-shutdown", "carrier-reset", "garbage-frame", "partition-keepalive", "none", "carrier-timeout", "server-closes"}[c.Pick(7, "end-mode")]
 	if endMode == "garbage-frame" && (CarrierEncrypted(carrier) || cfg.ServerCert != "" || CarrierIsKCP(carrier) || CarrierIsDNS(carrier) || strings.HasPrefix(carrier, "ws")) {
 		// garbage can only be injected as stream bytes where the carrier is a cleartext byte stream
 		endMode = "carrier-reset"
 	}
 	if endMode == "carrier-timeout" && (strings.HasPrefix(carrier, "stdio") || strings.HasPrefix(carrier, "unix")) {
 		endMode = "carrier-reset" // only a network path makes the kernel give up with ETIMEDOUT
+	}
+	if endMode == "server-closes" && (CarrierIsKCP(carrier) || strings.HasPrefix(carrier, "stdio")) {
+		// KCP has no close signal (the peer learns by keep-alive timeout); the stdio carrier has no server-side socket
+		endMode = "partition-keepalive"
 	}
 	if (endMode == "carrier-reset" || endMode == "partition-keepalive" || endMode == "carrier-timeout") && (CarrierIsKCP(carrier) || CarrierIsDNS(carrier)) {
 		endMode = "partition-keepalive"
@@ -222,6 +229,27 @@ func scenarioC14(r *Run) {
 			r.Net.Reset(cn)
 			r.Count("fault_carrier_reset")
 		}
+	case "server-closes":
+		// the server's end of the physical session is closed under a live client (what the server does
+		// when it ends a session for its own reasons): stream carriers send a FIN, the DNS tunnel answers
+		// the client's next request with "bad connection"
+		if CarrierIsDNS(carrier) {
+			for _, sv := range w.Server.Servers {
+				if ds, ok := sv.(*server.DnsServer); ok {
+					if l, ok := ds.SimListener().(*sdns.ServerDnsListener); ok {
+						for _, cn := range l.SimLiveConns() {
+							cn.Close()
+							r.Count("end_server_closes")
+						}
+					}
+				}
+			}
+		} else {
+			for _, cn := range ClientCarrierConns(w) {
+				cn.Out().To.Close()
+				r.Count("end_server_closes")
+			}
+		}
 	case "carrier-timeout":
 		for _, cn := range ClientCarrierConns(w) {
 			r.Net.TimeoutKill(cn)
@@ -244,16 +272,27 @@ func scenarioC14(r *Run) {
 		}
 		if CarrierIsKCP(carrier) || CarrierIsDNS(carrier) {
 			r.Info["partition"] = "datagram carrier: all datagrams dropped"
-			drop := &NetPolicy{Whole: true, LossBudget: 1 << 30}
-			_ = drop
-			// drop every datagram for two simulated minutes
-			end := time.Now().Add(2 * time.Minute)
-			for time.Now().Before(end) {
-				r.Step(&NetPolicy{Whole: true, FilterLink: func(ls2 simLinkState) bool { return true }, DgramHook: func(seq int) bool {
-					r.Net.DropDgram(seq)
-					r.Count("fault_dgram_loss")
-					return true
-				}}, nil, 5*time.Second)
+			// Drop every datagram for a drawn time. Two minutes is long enough for both ends' keep-alive
+			// to give up. A shorter outage, close to the keep-alive timeout, may end the session at one
+			// end only (or not at all) before the path heals; whatever survives it is then ended by a
+			// second, long outage, so that the idle footprint is the expected one in every case.
+			plen := []time.Duration{2 * time.Minute, time.Duration(20+c.Pick(40, "partition-s")) * time.Second, time.Duration(28000+c.Pick(6000, "partition-ms")) * time.Millisecond}[c.Pick(3, "partition-len")]
+			r.Info["partition_len"] = plen.String()
+			outage := func(d time.Duration) {
+				end := time.Now().Add(d)
+				for time.Now().Before(end) {
+					r.Step(&NetPolicy{Whole: true, FilterLink: func(ls2 simLinkState) bool { return true }, DgramHook: func(seq int) bool {
+						r.Net.DropDgram(seq)
+						r.Count("fault_dgram_loss")
+						return true
+					}}, nil, 5*time.Second)
+				}
+			}
+			outage(plen)
+			if plen < 2*time.Minute {
+				r.Count("fault_partition_healed")
+				r.RunFor(time.Duration(30+c.Pick(90, "healed-s")) * time.Second)
+				outage(2 * time.Minute)
 			}
 		}
 	case "none":
@@ -266,6 +305,7 @@ func scenarioC14(r *Run) {
 			return
 		}
 		if d := base.diff(l3); d != "" {
+			r.Info["leaked_goroutine_stacks"] = GoroutineStacks(strings.Split(leakSites(base, l3), ","))
 			r.FailSig("not-reclaimed", "carrier="+carrierClass(carrier)+" end="+endMode+" sites="+leakSites(base, l3), "after the session ended by %s the footprint did not return to idle: %s", endMode, d)
 			return
 		}
